@@ -8,7 +8,7 @@ from oracle_util import *  # noqa
 from protocol import from_real, to_real
 
 ID = "C05"
-LEAN_MODULE = ["SCoda.Props.C05", "SCoda.Props.C05b", "SCoda.Props.Strong589Q", "SCoda.Props.WrapTie", "SCoda.Props.AbsTie2", "SCoda.Props.UtilTie"]
+LEAN_MODULE = ["SCoda.Props.C05", "SCoda.Props.C05b", "SCoda.Props.C05s", "SCoda.Props.Strong589Q", "SCoda.Props.WrapTie", "SCoda.Props.AbsTie2", "SCoda.Props.UtilTie"]
 LEVEL = "proof"
 CLAUSES = [
     ("every remaining event lies on a tick divisible by at least one step size; quantise never fails on well-formed input",
@@ -22,13 +22,26 @@ CLAUSES = [
      "or doubled (length, note count and multiset bounds follow); notes of one channel and pitch do not overlap (`notesOf` pairwise: off <= next on); well-formedness of "
      "the input is necessary (for [on@0, on@8] a note-off is fabricated, model and implementation alike)",
      ["SCoda.Strong589.notes_injective", "SCoda.Strong589.length_le", "SCoda.Strong589.note_count_le", "SCoda.Strong589.multiset_le", "SCoda.Strong589.no_overlap", "SCoda.Strong589.dropped_of_lt'"]),
+    ("STORED ORDER (finding D41, repaired): AbsoluteSequence.quantise begins with normalise_absolute(), so it is the walk `SCoda.quantise` (Model/Quantise.lean, what the clauses "
+     "above are proved of) applied to the CANONICAL order of the stored messages: model `quantiseS steps a = quantise steps (sortAbs a)` (Model/QuantiseS.lean). Every clause above "
+     "is restated and proved of `quantiseS` with its hypotheses on the canonical order `sortAbs a` — well-formedness is asked of the sorted events, never of the order in which the "
+     "messages of one tick happen to be stored (add_absolute_message is an insort by time only): grid, totality, per-message displacement, well-formed output with positive "
+     "durations, non-note events kept, no duplication / no invented message (the result is a sublist of the canonical order re-timed by at most the largest step each), no overlap, "
+     "survival and removal of isolated notes. The recorded D41 input (on@0, on@50, off@50, off@100 of one key, steps [4]) satisfies these hypotheses although its stored order is not "
+     "well-formed, and the repaired function keeps its second note [48,100) (kernel-evaluated); NEGATIVE CONTROL: the same statement about the unrepaired function (the walk over the "
+     "stored order) is refuted by that input — a note-off is fabricated and the second note ends at 52",
+     ["SCoda.C05s.total", "SCoda.C05s.on_grid", "SCoda.C05s.sorted_out", "SCoda.C05s.displacement", "SCoda.C05s.others_kept", "SCoda.C05s.wf_out", "SCoda.C05s.positive_durations",
+      "SCoda.C05s.survives_partial", "SCoda.C05s.survives_of_lt", "SCoda.C05s.dropped_partial", "SCoda.C05s.dropped_of_lt", "SCoda.C05s.survives_statement_false",
+      "SCoda.C05s.dropped_statement_false", "SCoda.C05s.notes_injective", "SCoda.C05s.length_le", "SCoda.C05s.note_count_le", "SCoda.C05s.multiset_le", "SCoda.C05s.no_overlap",
+      "SCoda.C05s.d41_hyps", "SCoda.C05s.d41_quantiseS", "SCoda.C05s.d41_quantise_stored", "SCoda.C05s.quantise_stored_order_statement_false"]),
     ("TIE BY TRANSLATION: Sequence.quantise / quantise_and_normalise (absolute view, quantise, invalidate; the three calls in order) as re-translated from the source equal the "
-     "wrapper model; AbsoluteSequence.quantise itself stays tied by correspondence", ["SCoda.WrapTie.quantise_eq", "SCoda.WrapTie.quantiseAndNormalise_eq"]),
+     "wrapper model (whose quantise step is `quantiseS`); AbsoluteSequence.quantise itself is tied by translation below and by correspondence",
+     ["SCoda.WrapTie.quantise_eq", "SCoda.WrapTie.quantiseAndNormalise_eq"]),
     ("an isolated note (of positive length) survives at the nearest grid position of its onset with a strictly later end whenever some grid position of "
      "its end lies after its quantised start, and is dropped only otherwise (the statement that does not tie the note-off to its note-on is refuted)",
      ["SCoda.C05.survives_of_lt", "SCoda.C05.dropped_of_lt", "SCoda.C05.survives_partial", "SCoda.C05.dropped_partial",
       "SCoda.C05.survives_statement_false", "SCoda.C05.dropped_statement_false"]),
-    ("TIE BY TRANSLATION, absolute view with object identity: the dict-heavy / aliasing methods of AbsoluteSequence are re-translated statement by statement on every run (Gen/AbsFns2.lean, tools/py2lean_abs2.py: Message objects live in a heap, a reference is a position tag, stores through any alias update the heap cell, dicts are insertion-ordered association lists, while loops carry proved fuel bounds) and proved equal to the hand models, for every heap and reference list with references into the heap and channels not None: quantise = the model quantise — same messages or the same error (KeyError / IndexError cases included) — for pairwise distinct objects and positive step sizes (step 0 raises ZeroDivisionError in the code and the translation, the model returns []: replayed); find_minimal_distance = the model's, no hypothesis",
+    ("TIE BY TRANSLATION, absolute view with object identity: the dict-heavy / aliasing methods of AbsoluteSequence are re-translated statement by statement on every run (Gen/AbsFns2.lean, tools/py2lean_abs2.py: Message objects live in a heap, a reference is a position tag, stores through any alias update the heap cell, dicts are insertion-ordered association lists, while loops carry proved fuel bounds) and proved equal to the hand models, for every heap and reference list with references into the heap and channels not None: quantise (normalise_absolute() first, then the walk) = the model quantiseS — same messages or the same error (KeyError / IndexError cases included) — for pairwise distinct objects and positive step sizes (step 0 raises ZeroDivisionError in the code and the translation, the model returns []: replayed); find_minimal_distance = the model's, no hypothesis",
      ["SCoda.AbsTie2.quantise_eq", "SCoda.AbsTie2.quantise_init", "SCoda.AbsTie2.findMinimalDistance_eq", "SCoda.AbsTie2.pairings_eq", "SCoda.AbsTie2.pairings_init"]),
     ("TIE BY TRANSLATION, numeric helpers: scoda/misc/util.py is re-translated statement by statement on every run (Gen/UtilFns.lean, tools/py2lean_util.py: one operator of the PyNum int/float tower per Python operator — floats as exact rationals, no rounding modelled —, range/enumerate/zip/comprehensions, while with proved fuel, numpy.digitize(right=True) modelled explicitly) and tied to the hand models and to the dumped tables: find_minimal_distance = the model's for all integer inputs, and meets its independent specification: the index is in range, no element is closer, and it is the FIRST such index",
      ["SCoda.UtilTie.findMinimalDistance_eq", "SCoda.UtilTie.findMinimalDistance_spec", "SCoda.UtilTie.getDefaultStepSizes_of_py", "SCoda.UtilTie.default_tables_from_source"]),
@@ -37,7 +50,8 @@ RULE = ("well-formed multi-channel note sets (<=8 notes, 3 channels, ticks<200, 
         "non-note events x step lists from the defaults and {2,3,4,5,7,12,16,24}; 35% with the messages of each tick stored in random order (as "
         "add_absolute_message leaves them); a quarter also through Sequence.quantise from every wrapper state, half of those without a step list; "
         "non-trivial = at least two notes or a note shorter than the largest step")
-ASSUMPTIONS = ["model: SCoda.quantise (Model/Quantise.lean), tied by correspondence on the same inputs"]
+ASSUMPTIONS = ["model: SCoda.quantiseS (Model/QuantiseS.lean: sortAbs, then SCoda.quantise of Model/Quantise.lean), tied by translation (AbsTie2.quantise_eq) and by "
+               "correspondence on the same inputs, 35 % of them with the messages of a tick stored in random order"]
 STEP_LISTS = [[24, 12, 6, 16, 8, 4], [12], [4], [2, 3], [5, 7], [16, 24], [3], [24], [6, 4], [7], [2],
               [8, 8, 12], [6, 4, 6, 9], [12, 12], [4, 6, 4], [9, 6, 9, 4]]      # duplicates, unsorted
 
@@ -62,7 +76,8 @@ def o_quantise(inp):
     if not steps or any(s <= 0 for s in steps):
         return [("~skip:bad-steps", "")]
     # the property is about well-formed sequences: judged on the canonical order of the same timed events.  The messages of one tick may be
-    # STORED in any order (add_absolute_message is an insort by time only; quantise walks the stored order): such inputs are judged too (audit O12)
+    # STORED in any order (add_absolute_message is an insort by time only; before the repair of D41 quantise walked the stored order, since then it
+    # sorts first): such inputs are judged too (audit O12)
     canon = sorted(a, key=lambda m: (m[2], m[1], m[0], -1 if m[3] is None else m[3]))
     pre, _ = abs_timed(canon)
     if wf_violations(pre) or any(on >= off for (_, _, on, off, _) in notes_of(pre)) or [m[2] for m in a] != [m[2] for m in canon]:
@@ -210,8 +225,9 @@ def setup(ctx):
     ctx.oracle("quantise", o_quantise)
 
     def kf_d41(f):
-        # two abutting notes of one key whose shared tick is STORED note-on before note-off: quantise (which walks the stored order and does not
-        # sort first) closes the first note where the second begins and then takes the first note's note-off for the second note's end.  Known
+        # (finding D41, repaired by fix_D41.diff; the predicate stays for source trees without the repair)
+        # two abutting notes of one key whose shared tick is STORED note-on before note-off: the unrepaired quantise (which walks the stored order
+        # and does not sort first) closes the first note where the second begins and then takes the first note's note-off for the second note's end.  Known
         # only for the note-level clause, only for a key and tick stored that way, and only when the OUTCOME is that: the failing note of the
         # result has the velocity of the input note starting on that tick, starts within a step of it and ENDS within a step of it too
         if f["oracle"] != "quantise" or f["clause"] != "note-displacement" or OBS not in (f.get("detail") or ""):
@@ -230,7 +246,9 @@ def setup(ctx):
 
 def generate(ctx):
     rng = ctx.rng
-    ctx.check("quantise", D41_EXAMPLE)      # the recorded instance of the known finding
+    ctx.check("quantise", D41_EXAMPLE)      # regression input: the recorded instance of finding D41 (repaired: fix_D41.diff); on a source without the repair
+    #                                           it fails 'note-displacement' and is recognised as D41 by kf_d41 above
+    ctx.corr("quantise", P.op_quantise(D41_EXAMPLE["steps"], D41_EXAMPLE["abs"]))     # … and model = implementation on it (Lean: C05s.d41_quantiseS)
     for i in range(ctx.n(400, 15000)):
         a, notes = G.gen_wf_abs(rng, channels=(0, 1, 2))
         steps = gen_steps(rng)
